@@ -477,13 +477,30 @@ def run(R):
         R.inst("C05.merge.tx", "K6 flows-to", "split transactions: HashSet union of every version's transactions", len(ext), oku)
 
 
+
+PADTY = "ant_protocol::storage::scratchpad::Scratchpad"
+
+
+def _cand_locals(b):
+    """the loop-carried candidate: `Option<Scratchpad>`, or an Option of a tuple that carries the scratchpad next to auxiliary data
+    (`Option<(Scratchpad, usize)>`) — by value, not a reference to it"""
+    out = set()
+    for k, t in b.locals.items():
+        t = str(t)
+        if t == "core::option::Option<%s>" % PADTY:
+            out.add(int(k))
+        elif t.startswith("core::option::Option<(") and t.endswith(")>") and PADTY in t and ("&" + PADTY) not in t and "&'" not in t and "&(" not in t:
+            out.add(int(k))
+    return out
+
+
 def split_pad_rules(R, sp, pfx="C05.merge"):
     """How handle_split_record_error picks among differing scratchpad versions (shared with C15: it is what a vault read
     returns when the holders disagree)."""
     # the candidate: the loop-carried Option<Scratchpad>.  Inside the loop it may only ever be assigned `Some(version)`
     # (never cleared, never the result of a combinator), and that only behind the two checks below.
     gsp = cfg_of(sp)
-    cand = set(locals_of_type(sp, "core::option::Option<ant_protocol::storage::scratchpad::Scratchpad>", exact=True))
+    cand = _cand_locals(sp)
     in_cycle = lambda bb: bb in gsp.reach(tuple(d for d, _ in gsp.succ[bb]))
     some_tmp = {st["d"][0] for blk in sp.blocks for st in blk["stmts"] if st["rv"]["k"] == "agg" and st["rv"].get("variant") == "Some" and len(st["d"]) == 1}
     good, bad_assign = [], []
@@ -528,16 +545,18 @@ def split_pad_rules(R, sp, pfx="C05.merge"):
         return f
     def old_cnt(b):
         # count() of the current candidate: receiver derives from the Option<Scratchpad> candidate local
-        cand = Taint(b).closure(locals_of_type(b, "core::option::Option<ant_protocol::storage::scratchpad::Scratchpad>", exact=True))
+        cand = Taint(b).closure(_cand_locals(b))
         return Taint(b).closure({blk["term"]["d"][0] for blk in b.blocks if blk["term"]["k"] == "call" and callee_matches(blk["term"], [PAD + "::count"])
                                  and op_local(blk["term"]["args"][0]) in cand})
 
     def new_cnt(b):
         fresh = Taint(b, through="all").closure(call_results(["ant_protocol::storage::header::try_deserialize_record"])(b)) - \
-            Taint(b).closure(locals_of_type(b, "core::option::Option<ant_protocol::storage::scratchpad::Scratchpad>", exact=True))
+            Taint(b).closure(_cand_locals(b))
         return Taint(b).closure({blk["term"]["d"][0] for blk in b.blocks if blk["term"]["k"] == "call" and callee_matches(blk["term"], [PAD + "::count"])
                                  and op_local(blk["term"]["args"][0]) in fresh})
-    higher = CmpGuard(old_cnt, new_cnt, "Lt", "old.count() < new.count()", close=False)
+    # the candidate is replaced only by a version whose counter is not lower (how ties are broken is not part of the property:
+    # `old.count() >= new.count() ⇒ keep` and a lexicographic `(count, holders)` ranking both satisfy it)
+    higher = CmpGuard(old_cnt, new_cnt, ["Lt", "Le"], "old.count() <= new.count()", close=False)
     noold = FieldOptGuard("?", ("None",))
     # `if let Some(old) = &valid_scratchpad`: discriminant of the local
     class _NoOld:
@@ -546,7 +565,7 @@ def split_pad_rules(R, sp, pfx="C05.merge"):
         def edges(self, body):
             tr = Tracker(body)
             n = 0
-            refs = Taint(body).closure(locals_of_type(body, "core::option::Option<ant_protocol::storage::scratchpad::Scratchpad>", exact=True))
+            refs = Taint(body).closure(_cand_locals(body))
             for blk in body.blocks:
                 for s in blk["stmts"]:
                     if s["rv"]["k"] == "discr" and s["rv"]["p"][0] in refs and len(s["d"]) == 1:
@@ -554,4 +573,4 @@ def split_pad_rules(R, sp, pfx="C05.merge"):
                         n += 1
             tr.run()
             return n, tr.accept, tr.reject
-    R.gate(pfx + ".pad.max", sp, somepad, [[higher, _NoOld()]], descr="split scratchpads: candidate replaced only by a strictly higher counter")
+    R.gate(pfx + ".pad.max", sp, somepad, [[higher, _NoOld()]], descr="split scratchpads: candidate replaced only by a version whose counter is not lower")
